@@ -7,8 +7,8 @@ Tie: the Lean definitions translated from the SOURCE TEXT of `pyplumio/structure
 byte-level model `Version.decode` of Model/NetVersion.lean for ALL messages, offsets and structure instances: the struct
 layout `<2sB2s3s3HB`, which field goes where, the dropped trailing address byte, the `'.'.join(map(str, …))` text of the
 software triple, the offset arithmetic.  So C03 `version_roundtrip` / C02 `version_layout` (statements about
-`Version.decode`) speak about the decoder's source.  (`encode` and the network-information structure are translated and
-validated against CPython — harness/pycode_types.py group `net` —; their Tie theorems are not written yet.)
+`Version.decode`) speak about the decoder's source.  (`encode`: Props/TieNetVersionEnc.lean; the network-information structure:
+Props/TieNetInfo.lean, TieNetInfoEnc.lean.)
 -/
 namespace PlumVerif.TieNetVersion
 open PlumVerif PlumVerif.Py
